@@ -89,21 +89,24 @@ Proof. vm_compute. reflexivity. Qed.
 
 (* ---- and it holds on a fragment ---- *)
 
-(* On schemas of the class [clean] - no references, formats other than next to a numeric type, nullable, patternProperties, dependencies, oneOf,
-   defaults under properties, empty tuples, nor a schema next to additional*: false; type, enum, numeric
-   and string keywords, items (one or positional) with additionalItems, properties / required / additionalProperties /
-   min- and maxProperties, allOf, anyOf, not, at every depth - and JSON data of the class [jd] - objects with distinct
-   members none of which is called "$schema", "id" or "headers"; null anywhere in the data when [allow_null] is set, in
-   which case the schema must be free of allOf / anyOf / not at every level (the null-under-composition finding lives
-   there) - the verdict of the pipeline is the draft-4 verdict: for every oracle, every option set with the two Swagger pre-checks off, every environment, and every
-   numeric implementation whose order is total on the numbers involved.  The excluded shapes are where the recorded
-   finding classes live, plus the keywords whose agreement is not proved yet (checked by the tie on every run). *)
+(* On schemas of the class [clean] - type, enum, numeric and string keywords, formats (next to a numeric type, or next to a
+   type list that accepts strings - and arrays, when [allow_arr] lets the data hold arrays: elsewhere the type.go:200
+   shortcut lives, a recorded finding), items (one or positional) with additionalItems, uniqueItems, properties (a default
+   only on members that are not required) / required / additionalProperties / min- and maxProperties, dependencies, allOf,
+   anyOf, oneOf, not, at every depth; no nullable, patternProperties, empty tuples, nor a schema next to additional*: false -
+   and JSON data of the class [jd] - objects with distinct members none of which is called "$schema", "id" or "headers";
+   null anywhere in the data when [allow_null] is set, in which case the schema must be free of allOf / anyOf / oneOf / not at
+   every level (the null-under-composition finding lives there); arrays anywhere when [allow_arr] is set - the verdict of the
+   pipeline is the draft-4 verdict: for every oracle, every option set with the two Swagger pre-checks off, every environment,
+   and every numeric implementation whose order is total and whose equality is symmetric on the numbers involved.  The excluded
+   shapes are where the recorded finding classes live, plus the keywords whose agreement is not proved yet (checked by the tie
+   on every run). *)
 Theorem C01_agreement_on_the_clean_fragment_partial :
-  forall (fin : f64 -> Prop) (allow_null : bool) OR N opt defs,
+  forall (fin : f64 -> Prop) (allow_null allow_arr : bool) OR N opt defs,
   opt_array_must_have_items opt = false -> opt_obj_array_type_check opt = false ->
   (forall a b, fin a -> fin b -> n_lt N a b = negb (n_le N b a)) ->
   (forall a b, fin a -> fin b -> n_eq N a b = n_eq N b a) ->
-  forall n fuel s, clean fin allow_null OR n s -> (n < fuel)%nat -> forall p q d, jd fin allow_null d ->
+  forall n fuel s, clean fin allow_null allow_arr OR n s -> (n < fuel)%nat -> forall p q d, jd fin allow_null allow_arr d ->
   exists r, sv_validate OR N opt defs fuel s p q d = Ok r /\ d4 OR N defs fuel s d = Some (r_valid r).
 Proof. exact clean_fragment_agrees. Qed.
 Print Assumptions C01_agreement_on_the_clean_fragment_partial.
@@ -111,40 +114,40 @@ Print Assumptions C01_agreement_on_the_clean_fragment_partial.
 (* ... and through references: a node may be a chain of at most K references ending in a node of the fragment (siblings
    of $ref are ignored by both sides); definitions that are recursive have no finite level and stay outside *)
 Theorem C01_agreement_with_references_partial :
-  forall (fin : f64 -> Prop) (allow_null : bool) OR N opt defs (K : nat),
+  forall (fin : f64 -> Prop) (allow_null allow_arr : bool) OR N opt defs (K : nat),
   opt_array_must_have_items opt = false -> opt_obj_array_type_check opt = false ->
   (forall a b, fin a -> fin b -> n_lt N a b = negb (n_le N b a)) ->
   (forall a b, fin a -> fin b -> n_eq N a b = n_eq N b a) ->
-  forall n f1 f2 s, cleanr fin allow_null OR defs K n s -> (n + K < f1)%nat -> (n * S K <= f2)%nat ->
-  forall p q d, jd fin allow_null d ->
+  forall n f1 f2 s, cleanr fin allow_null allow_arr OR defs K n s -> (n + K < f1)%nat -> (n * S K <= f2)%nat ->
+  forall p q d, jd fin allow_null allow_arr d ->
   exists r, sv_validate OR N opt defs f1 s p q d = Ok r /\ d4 OR N defs f2 s d = Some (r_valid r).
 Proof. exact agreement_with_references. Qed.
 Print Assumptions C01_agreement_with_references_partial.
 
-Theorem C01_fragment_decision_with_references_is_sound : forall fin_b allow_null OR defs K n s,
-  cleanr_b fin_b allow_null OR defs K n s = true -> cleanr (finP fin_b) allow_null OR defs K n s.
+Theorem C01_fragment_decision_with_references_is_sound : forall fin_b allow_null allow_arr OR defs K n s,
+  cleanr_b fin_b allow_null allow_arr OR defs K n s = true -> cleanr (finP fin_b) allow_null allow_arr OR defs K n s.
 Proof. exact cleanr_b_sound. Qed.
 Print Assumptions C01_fragment_decision_with_references_is_sound.
 
 (* the instance the correspondence run executes: Flocq binary64, finite numbers. Whenever the decision procedure says
    "inside" (the count is in the evidence of every run), the model's verdict is the draft-4 verdict over binary64 *)
-Theorem C01_agreement_for_the_binary64_model : forall allow_null OR opt defs K n f1 f2 s fuel d,
+Theorem C01_agreement_for_the_binary64_model : forall allow_null allow_arr OR opt defs K n f1 f2 s fuel d,
   opt_array_must_have_items opt = false -> opt_obj_array_type_check opt = false ->
-  cleanr_b f_finite allow_null OR defs K n s = true -> jd_b f_finite allow_null fuel d = true ->
+  cleanr_b f_finite allow_null allow_arr OR defs K n s = true -> jd_b f_finite allow_null allow_arr fuel d = true ->
   (n + K < f1)%nat -> (n * S K <= f2)%nat -> forall p q,
   exists r, sv_validate OR flocq_ops opt defs f1 s p q d = Ok r /\ d4 OR flocq_ops defs f2 s d = Some (r_valid r).
 Proof.
-  intros an OR opt defs K n f1 f2 s fuel d H1 H2 Hc Hd Hf1 Hf2 p q.
-  apply (agreement_with_references (finP f_finite) an OR flocq_ops opt defs K H1 H2 flocq_order_total flocq_eq_sym n f1 f2 s
-           (cleanr_b_sound f_finite an OR defs K n s Hc) Hf1 Hf2 p q d (jd_b_sound f_finite an fuel d Hd)).
+  intros an aa OR opt defs K n f1 f2 s fuel d H1 H2 Hc Hd Hf1 Hf2 p q.
+  apply (agreement_with_references (finP f_finite) an aa OR flocq_ops opt defs K H1 H2 flocq_order_total flocq_eq_sym n f1 f2 s
+           (cleanr_b_sound f_finite an aa OR defs K n s Hc) Hf1 Hf2 p q d (jd_b_sound f_finite an aa fuel d Hd)).
 Qed.
 Print Assumptions C01_agreement_for_the_binary64_model.
 
 (* the fragment is decidable: the procedure the harness evaluates on every case (its count is in the evidence) is sound *)
-Theorem C01_fragment_decision_is_sound : forall fin_b allow_null OR n s fuel d,
-  clean_b fin_b allow_null OR n s = true -> jd_b fin_b allow_null fuel d = true ->
-  clean (finP fin_b) allow_null OR n s /\ jd (finP fin_b) allow_null d.
-Proof. intros fin_b an OR n s fuel d H1 H2. split; [apply clean_b_sound; exact H1 | apply (jd_b_sound fin_b an fuel d H2)]. Qed.
+Theorem C01_fragment_decision_is_sound : forall fin_b allow_null allow_arr OR n s fuel d,
+  clean_b fin_b allow_null allow_arr OR n s = true -> jd_b fin_b allow_null allow_arr fuel d = true ->
+  clean (finP fin_b) allow_null allow_arr OR n s /\ jd (finP fin_b) allow_null allow_arr d.
+Proof. intros fin_b an aa OR n s fuel d H1 H2. split; [apply clean_b_sound; exact H1 | apply (jd_b_sound fin_b an aa fuel d H2)]. Qed.
 Print Assumptions C01_fragment_decision_is_sound.
 
 (* non-vacuity: numbers read as integers, {"type":"object","required":[50],"properties":{50:{"type":"number","maximum":7}},
@@ -160,12 +163,20 @@ Definition c01_schema : schema :=
 Definition c01_data : goval := VObj 1 [(50, VFlt false 5); (51, VArr 2 [VBool true])].
 
 Example C01_fragment_is_inhabited :
-  clean (finP (fun _ => true)) false no_oracles 4 c01_schema /\ jd (finP (fun _ => true)) false c01_data /\
+  clean (finP (fun _ => true)) false true no_oracles 4 c01_schema /\ jd (finP (fun _ => true)) false true c01_data /\
   (forall a b, finP (fun _ => true) a -> finP (fun _ => true) b -> n_lt z_ops a b = negb (n_le z_ops b a)) /\
   exists r, sv_validate no_oracles z_ops opt0 [] 5 c01_schema [SRoot 0] [SRoot 0] c01_data = Ok r /\ r_valid r = true.
 Proof.
   split; [apply clean_b_sound; vm_compute; reflexivity|].
-  split; [apply (jd_b_sound (fun _ => true) false 5); vm_compute; reflexivity|].
+  split; [apply (jd_b_sound (fun _ => true) false true 5); vm_compute; reflexivity|].
   split; [intros a b _ _; cbn; apply Z.ltb_antisym|].
   eexists. split; [vm_compute; reflexivity | reflexivity].
 Qed.
+
+(* formats next to a string type: {"type":"string","format":F} is inside the fragment for data without arrays, and outside
+   when the data may hold arrays (an array would skip the type check: finding class type-format-shortcut) *)
+Example C01_string_format_in_fragment :
+  clean_b (fun _ => true) false false no_oracles 2 (set_types [k_string] (set_format 77 empty_schema)) = true /\
+  clean_b (fun _ => true) false true no_oracles 2 (set_types [k_string] (set_format 77 empty_schema)) = false /\
+  clean_b (fun _ => true) false true no_oracles 2 (set_types [k_string; k_array] (set_format 77 empty_schema)) = true.
+Proof. vm_compute. repeat split. Qed.
